@@ -610,7 +610,7 @@ func hashStr(s string) uint64 {
 // ---------------- (c) hostile replies ----------------
 
 var hostileKinds = []string{"good", "codec0-body", "unknown-codec", "undecodable", "wrong-seq", "negative-seq", "dup-one-write", "dup-delayed", "truncated", "status", "oversize",
-	"call-type-same-seq", "unregistered-filter", "empty-body", "two-different-replies", "status-malformed", "status-malformed-nocodec",
+	"call-type-same-seq", "unregistered-filter", "empty-body", "two-different-replies", "status-malformed", "status-malformed-nocodec", "filter-refuses",
 	"pb-good", "pb-length-overflow", "pb-length-huge", "pb-truncated-varint", "pb-wrong-wiretype", "pb-group-end", "pb-empty"}
 
 // pbBodies are reply bodies under the protobuf body codec for a result type with a generated decoder (plugin/secure.Encrypt:
@@ -728,6 +728,19 @@ func runHostile(e *env, kind, resKind string, idx int) {
 		writes = append(writes, b)
 	case "pb-good", "pb-length-overflow", "pb-length-huge", "pb-truncated-varint", "pb-wrong-wiretype", "pb-group-end", "pb-empty":
 		writes = append(writes, pack(mk(seq, codec.ID_PROTOBUF, string(pbBodies[kind]), "")))
+	case "filter-refuses":
+		// a reply through the registered gzip filter whose compressed payload is damaged (checksum / trailer): the filter
+		// refuses it while the frame itself is well-formed and addressed to the pending call
+		b := pack(mk(seq, codec.ID_JSON, `{"tok":"r","pay":"`+strings.Repeat("q", 300)+`"}`, "z"))
+		if b == nil {
+			kind = "good"
+			b = pack(good)
+		} else {
+			for i := 1; i <= 6 && i < len(b); i++ {
+				b[len(b)-i] ^= 0x5a
+			}
+		}
+		writes = append(writes, b)
 	case "empty-body":
 		writes = append(writes, pack(mk(seq, codec.ID_JSON, "", "")))
 	case "status-malformed", "status-malformed-nocodec":
@@ -761,7 +774,7 @@ func runHostile(e *env, kind, resKind string, idx int) {
 	// a complete frame of type REPLY addressed to the pending call has arrived: whatever its content, the call is complete
 	// now (with the reply or an error), with the connection kept or dropped - no further event is needed
 	switch kind {
-	case "codec0-body", "unknown-codec", "undecodable", "dup-one-write", "dup-delayed", "two-different-replies", "status", "empty-body", "status-malformed", "status-malformed-nocodec",
+	case "codec0-body", "unknown-codec", "undecodable", "dup-one-write", "dup-delayed", "two-different-replies", "status", "empty-body", "status-malformed", "status-malformed-nocodec", "filter-refuses",
 		"pb-good", "pb-length-overflow", "pb-length-huge", "pb-truncated-varint", "pb-wrong-wiretype", "pb-group-end", "pb-empty":
 		if !(isDone(t.issued) && isDone(t.cmd.Done())) {
 			vs = append(vs, viol{"reply-arrived-call-incomplete", fmt.Sprintf("a complete reply frame addressed to the call was delivered (%s), the process is quiescent, the call is still incomplete", kind)})
